@@ -1,7 +1,7 @@
 (* The history theorems without the model-only premise "no ABug 4": by NoBug4.v it never occurs in top-down histories. *)
 From Coq Require Import List NArith ZArith Bool Lia.
 From PieV Require Import Model.Dag Model.Build Proofs.StoreInv Proofs.History Proofs.ExecInv Proofs.ExecSession Proofs.Cert Proofs.Stable
-  Proofs.NoBug4 Proofs.Sim.
+  Proofs.NoBug4 Proofs.Sim Proofs.NoAbort.
 Import ListNotations.
 Open Scope N_scope.
 
@@ -66,4 +66,46 @@ Proof.
   apply (history_td_no_bug4 RC OC P always fuel h init_world TD J_init).
 Qed.
 End Cls2.
+
+(* ---- the static class: nothing aborts, everything returns ---- *)
+Section Tot.
+Variable gen : res -> option task.
+Variable wck : rcid -> Prop.
+Variable ord : task -> nat.
+Variable sf : rcid -> res -> content -> Z.
+Hypothesis HS : forall c env r v, rc_stamp (RC c) env r v = inl (sf c r v).
+Hypothesis HWF : forall t, WFP gen wck t [] (P t).
+Hypothesis HWO : forall t, WFO ord t (P t).
+
+(* C20 (first clause): for well-formed programs no session of any history aborts -- neither with a cycle, hidden-dependency or
+   overlapping-write diagnosis, nor otherwise -- and every require returns, given fuel above the height of the roots *)
+Theorem static_class_never_aborts fuel h : hist_below ord fuel h ->
+  Forall (Forall is_done) (fst (run_history RC OC P always fuel init_world h)).
+Proof.
+  intros HB. apply (history_returns gen wck ord RC OC P sf HS HWF HWO always fuel h init_world HB J_init (Q_init gen ord)).
+Qed.
+
+Hypothesis HC : forall c env r v v', rc_check (RC c) env r v' (sf c r v) = Consistent -> rc_view (RC c) v' = rc_view (RC c) v.
+Hypothesis HW : forall c env r v v', wck c -> rc_check (RC c) env r v' (sf c r v) = Consistent -> v' = v.
+Hypothesis HOC : forall c o o', oc_check (OC c) o' (oc_stamp (OC c) o) = true -> oc_view (OC c) o' = oc_view (OC c) o.
+
+(* C01, total: both sessions return, with equal outputs and equal resource contents *)
+Theorem incremental_equals_scratch_total fuel fuel0 h ops :
+  hist_below ord fuel h -> roots_below ord fuel ops -> roots_below ord fuel0 ops ->
+  let w := snd (run_history RC OC P always fuel init_world h) in
+  let ra := run_session RC OC P always fuel (new_session w) ops in
+  let rb := run_session RC OC P always fuel0 (new_session (fresh_of w)) ops in
+  Forall is_done (fst ra) /\ Forall is_done (fst rb) /\ fst ra = fst rb /\ forall r, get_content (snd ra) r = get_content (snd rb) r.
+Proof.
+  intros HB RA RB w ra rb.
+  destruct (history_returns gen wck ord RC OC P sf HS HWF HWO always fuel h init_world HB J_init (Q_init gen ord)) as [_ [Jw Qw]]. fold w in Jw, Qw.
+  destruct (session_returns gen wck ord RC OC P sf HS HWF HWO always fuel ops (new_session w) RA (J_new_session w Jw)
+              ltac:(apply (Q_same gen ord w); [reflexivity|exact Qw])) as [DA _].
+  assert (Jf : J (new_session (fresh_of w))) by (split; [exact GOK_empty|split; [intros t d X; discriminate|intros t X; discriminate]]).
+  assert (Qf : Q gen ord (new_session (fresh_of w))) by (intros a; apply QR_empty; reflexivity).
+  destruct (session_returns gen wck ord RC OC P sf HS HWF HWO always fuel0 ops (new_session (fresh_of w)) RB Jf Qf) as [DB _].
+  split; [exact DA|]. split; [exact DB|].
+  eapply incremental_equals_scratch_all; try eassumption; [eapply hist_td; eassumption|eapply roots_td; eassumption].
+Qed.
+End Tot.
 End F.
